@@ -514,6 +514,25 @@ func run(c *fw.Ctx) {
 			c.Count(fmt.Sprintf("nesting_%s_%d_%s", fam, n, cls), 1)
 		}
 	}
+	// 4c. flat programs: thousands of simple statements one after the other are
+	// ordinary programs (nothing nests, every jump is short): they must load
+	for fi, unit := range []string{"if 1 then x = 1 end ", "if true then end ", "while true do break end ", "repeat until true ", "repeat x = 1 until 'x' ", "if x then elseif true then end ",
+		"x = x or 1 ", "if not nil then x = 2 end ", "do local a = 1 end ", "for i = 1, 0 do end ", "x = function() return 1 end ", "while false do end "} {
+		for _, n := range []int{9000, 12000, 20000} {
+			idx++
+			if !c.Mine(idx) {
+				continue
+			}
+			b := []byte("local x\n" + strings.Repeat(unit, n) + "\nreturn x")
+			cs := Case{Kind: "flat", Family: unit, N: n}
+			cls := check(c, cs, b, true)
+			c.Count(fmt.Sprintf("flat_%d_%d_%s", fi, n, cls), 1)
+			if cls == "syntax" {
+				_, msg := load(b)
+				c.Violation(fmt.Sprintf("a flat program of %d statements `%s` is rejected: %s", n, strings.TrimSpace(unit), fw.Short(msg, 200)), cs)
+			}
+		}
+	}
 	// 5. special cut points
 	specials := []string{"\"\\", "\"\\1", "\"\\12", "\"\\256\"", "\"\\\n", "'\\\r\n'", "[[", "[=[", "[==[x]=]", "--[[", "--[==[x]]", "0x", "0xg", "1e", "1e+", "1..2", "1...2", "3..", ".", "..", "...",
 		"#!shebang\nreturn 1", "#!only", "#", "\xef\xbb\xbfreturn 1", "return\"a\\z  b\"", "x = 'a\nb'", "goto", "goto 1", "::", "::x", "::x::", "::x:: ::x::", "goto nowhere", "do local a goto l local b ::l:: b = 1 end",
@@ -654,6 +673,13 @@ func replay(c *fw.Ctx, raw json.RawMessage) {
 	b := cs.Bytes
 	if b == nil && cs.Kind == "nesting" {
 		b = buildNest(cs.Family, cs.N)
+	}
+	if b == nil && cs.Kind == "flat" {
+		b = []byte("local x\n" + strings.Repeat(cs.Family, cs.N) + "\nreturn x")
+		if cls, msg := load(b); cls == "syntax" {
+			c.Violation(fmt.Sprintf("a flat program of %d statements `%s` is rejected: %s", cs.N, strings.TrimSpace(cs.Family), fw.Short(msg, 200)), cs)
+		}
+		return
 	}
 	if b == nil && cs.Family != "" {
 		fb, _ := os.ReadFile(cs.Family)
